@@ -77,7 +77,7 @@ LowerOf(tab, r) == IF r >= 65 /\ r <= 90 THEN r + 32
 Store0 == [x |-> -1, y |-> -1, cl |-> <<>>]
 X0 == [pos |-> 0, env |-> <<>>, store |-> Store0, g |-> 0, log |-> <<>>, errs |-> <<>>,
        fmax |-> 0, fset |-> {}, fany |-> FALSE, hs |-> <<>>, seeds |-> <<>>, done |-> {},
-       ab |-> "none", abinfo |-> <<>>, cnt |-> 0, haz |-> {}, mseen |-> {}, active |-> {}]
+       ab |-> "none", abinfo |-> <<>>, cnt |-> 0, haz |-> {}, mseen |-> {}, active |-> {}, rseen |-> {}]
 Res(ok, val, x) == [ok |-> ok, val |-> val, x |-> x]
 Ab(x) == x.ab # "none"
 \* restore what backtracking restores, keep what survives failure
@@ -272,7 +272,10 @@ SeedIx(x, ri, pos) ==
 EvRule(C, ri, x, inv) ==
   IF C.G.lr[ri] = 0 THEN
        IF <<ri, x.pos>> \in x.active THEN Res(FALSE, Nil, [x EXCEPT !.ab = "reentry", !.abinfo = <<ri, x.pos>>])
-       ELSE LET r == Ev(C, C.G.rules[ri], [x EXCEPT !.active = @ \cup {<<ri, x.pos>>}], inv, C.G.names[ri])
+       ELSE \* hazard bookkeeping for known finding F21 only: a rule evaluated twice at one offset (a memo hit in the real parser)
+            LET x1 == [x EXCEPT !.active = @ \cup {<<ri, x.pos>>}, !.rseen = @ \cup {<<ri, x.pos>>},
+                                !.haz = IF <<ri, x.pos>> \in x.rseen THEN @ \cup {"rulerepeat"} ELSE @]
+                r == Ev(C, C.G.rules[ri], x1, inv, C.G.names[ri])
             IN [r EXCEPT !.x.active = x.active]
   ELSE LET si == SeedIx(x, ri, x.pos) IN
        IF si > 0 THEN                        \* the recursive reference: the result so far
